@@ -119,3 +119,48 @@ inline int vidx(int nr, int nt, int nC, int ir, int it)
     if (ir < nC) return ir * nt + it;
     return nC * nt + it * (nr - nC) + (ir - nC);
 }
+
+// ---- K-num/small: small exact rationals satisfying the documented assumptions (arr, att > 0, 4 arr att >= art^2,
+//      detDF != 0 of either sign, beta >= 0); `variant` permutes the pattern
+inline void vnumeric_cache(LevelCache& lc, const PolarGrid& g, int variant)
+{
+    const int n = g.numberOfNodes();
+    for (int i = 0; i < n && lc.arr_.size() > 0; i++) {
+        const int a = (i * 7 + variant * 3) % 5, b = (i * 5 + variant) % 4, c = (i * 3 + variant * 2) % 7;
+        lc.arr_[i]   = 0.5 + 0.25 * a;               // 1/2 .. 3/2
+        lc.att_[i]   = 0.75 + 0.25 * b;              // 3/4 .. 3/2
+        lc.art_[i]   = 0.125 * (c - 3);              // -3/8 .. 3/8  (art^2 <= 9/64 < 4*1/2*3/4)
+        lc.detDF_[i] = ((i + variant) % 3 == 0 ? -1.0 : 1.0) * (0.5 + 0.125 * ((i * 11 + variant) % 6));
+    }
+    for (size_t i = 0; i < lc.coeff_beta_.size(); i++) lc.coeff_beta_[i] = 0.25 * ((i + variant) % 4);   // 0 .. 3/4
+    for (size_t i = 0; i < lc.coeff_alpha_.size(); i++) lc.coeff_alpha_[i] = 0.5 + 0.25 * ((i + variant) % 3);
+}
+// H-num/small: replace the angular spacings (multiples of pi as doubles) by small rationals with antipodal periodicity
+inline void vsmall_angles(PolarGrid& g)
+{
+    const int nt = g.ntheta(), half = nt / 2;
+    static const double w[] = {0.5, 0.75, 0.25, 0.625, 0.375, 0.5, 0.875, 0.25};
+    for (int j = 0; j < half; j++) { g.angular_spacings_[j] = w[j % 8]; g.angular_spacings_[j + half] = w[j % 8]; }
+    g.angles_[0] = 0.0;
+    for (int j = 0; j < nt; j++) g.angles_[j + 1] = g.angles_[j] + g.angular_spacings_[j];
+}
+
+// a level with either symbolic (S1/S3) or small-rational numeric (S2) grid and coefficients
+struct VLevelBox {
+    VStubGeometry geo;
+    VStubCoeff co;
+    std::unique_ptr<Level> L;
+    int nr, nt, nC;
+    bool dirbc;
+    bool is_dirichlet(int ir) const { return ir == nr - 1 || (ir == 0 && dirbc); }
+};
+inline void vbuild_level(VLevelBox& b, int nr, int nt, int nC, bool dirbc, bool symbolic_coeffs, int variant, int depth = 0,
+                         bool spd_constraint = false, int detsign = 1)
+{
+    auto grid = vmake_grid(nr, nt, nC);
+    auto lc   = std::make_unique<LevelCache>(*grid, b.co, b.geo, true, true);
+    if (symbolic_coeffs) { vsymbolize_grid(*grid); vsymbolize_cache(*lc, *grid, detsign, spd_constraint); }
+    else { vsmall_angles(*grid); vnumeric_cache(*lc, *grid, variant); }
+    b.nr = grid->nr(); b.nt = grid->ntheta(); b.nC = grid->numberSmootherCircles(); b.dirbc = dirbc;
+    b.L = std::make_unique<Level>(depth, std::move(grid), std::move(lc), ExtrapolationType::NONE, false);
+}
